@@ -1206,6 +1206,9 @@ func (as *AbacoSource) distributeData(buffersMsg AbacoBuffersType) *dataBlock {
 		externalTriggers = make([]int64, 0)
 	}
 
+	// Read the shared frame counter once, here (the packet reader loads it concurrently).
+	firstFrame := FrameIndex(atomic.LoadInt64((*int64)(&as.nextFrameNum)))
+
 	// TODO: we should loop over devices here, matching devices to channels.
 	var wg sync.WaitGroup
 	for channelIndex := 0; channelIndex < nchan; channelIndex++ {
@@ -1217,7 +1220,7 @@ func (as *AbacoSource) distributeData(buffersMsg AbacoBuffersType) *dataBlock {
 				rawData:         data,
 				framesPerSample: 1, // This will be changed later if decimating
 				framePeriod:     as.samplePeriod,
-				firstFrameIndex: as.nextFrameNum,
+				firstFrameIndex: firstFrame,
 				firstTime:       firstTime,
 				signed:          true,
 				droppedFrames:   buffersMsg.droppedFrames,
